@@ -359,8 +359,15 @@ def run(case):
             marks.add(n)
             mark_glyphs.add(n)
     if "GPOS" not in tt:
+        # (with classes given, a plain anchor counts only on a glyph classed base - or mark,
+        # for mark-to-mark; a glyph classed ligature attaches through numbered anchors only)
         need = any(anchors[b]["plain"].keys() & anchors[m]["mark"].keys()
-                   for b in anchors for m in marks)
+                   for b in anchors for m in marks
+                   if classes is None or classes.get(b) in ("base", "mark"))
+        need = need or any(set(comp_) & anchors[m]["mark"].keys()
+                           for b in anchors for comp_ in anchors[b]["lig"].values() for m in marks
+                           if b not in mark_glyphs
+                           and (classes is None or classes.get(b) == "ligature"))
         if need:
             return {"status": "violated", "counters": counters, "violations": [
                 {"mech": "no_gpos_but_matching_anchors", "detail": {}}]}
